@@ -32,10 +32,12 @@ ASSUMPTIONS = [
     "logd; points where the two extrapolations disagree by >1e-6 or logd is not finite are skipped and counted",
     "analytic gradients accepted at 1e-5*max(1,|g|); FD-option gradients at 1e-4*max(1,|g|)+100*eps*|logd|/epsilon",
     "shape is compared by number of entries (a (1,n)/(n,1) array for an n-vector is accepted)",
-    "where the object's own logd refuses or is NaN at interior points (sparse Gaussian covariance/precision without "
-    "cholmod: no normalised logd; rank-deficient GMRF reporting a NaN constant) the analytic gradient is compared with "
-    "the Richardson derivative of the textbook quadratic form of the documented parameterisation (symmetric matrices, "
-    "index-formula stencil of vfw.refs); the FD option is skipped there; posteriors on such priors are skipped",
+    "the additive constant of GMRF objects is pinned (private _logdet := 0): for neumann/periodic bc it comes from ARPACK "
+    "with a process-history dependent start vector and is sometimes NaN, which would make counts non-deterministic; "
+    "derivatives are unaffected",
+    "where the object's own logd refuses at interior points (sparse Gaussian covariance/precision without cholmod: no "
+    "normalised logd) the analytic gradient is compared with the Richardson derivative of the textbook quadratic form "
+    "of the documented parameterisation (symmetric matrices only); the FD option is skipped there",
     "kinked densities (Laplace, LMRF, donut/CalSom91 at the origin) and support boundaries are evaluated only at "
     "catalogue points at distance >= 1/32 from the kink/boundary",
     "user-supplied pieces (model Jacobians, geometry.gradient, PDE gradients, UserDefined gradient_func) are correct "
@@ -161,6 +163,7 @@ def eval_cell(cell):
                 compared += 1
                 res.evaluations += 1
     rec.emit()
+    res.traces += compared      # every compared (object, point) pair: reference derivative replayed against gradient()
     if compared == 0:
         res.nontrivial = False
     return res
